@@ -108,6 +108,59 @@ pub fn mutate(rng: &mut Rng, h: &[u8]) -> Vec<u8> {
     m
 }
 
+/// Sequences of requests read through ONE connection buffer (suite `c01s`, also part of `c01`).
+pub fn pipelines(ctx: &mut Ctx, rng: &mut Rng, idx: &mut u64) {
+    // (vi) sequences of small requests through one buffer, reads not aligned with request boundaries
+    let nseq = if ctx.thorough() { 3000 } else { 400 };
+    for _ in 0..nseq {
+        let k = rng.range(2, 14);
+        let mut s = Vec::new();
+        for j in 0..k {
+            s.extend_from_slice(format!("GET /{j} HTTP/1.1\r\n").as_bytes());
+            if rng.chance(1, 2) {
+                s.extend_from_slice(b"a: b\r\n");
+            }
+            s.extend_from_slice(b"\r\n");
+        }
+        if rng.chance(1, 4) {
+            s.extend_from_slice(b"GARBAGE");
+        }
+        let sizes: Vec<usize> = (0..rng.range(1, 4)).map(|_| rng.range(1, 50) as usize).collect();
+        *idx += 1;
+        if ctx.mine(*idx) {
+            super::req::case_seq(ctx, if rng.chance(1, 2) { "64" } else { "256" }, &crate::gen::enc(&s), if rng.chance(1, 2) { "eof" } else { "err" }, &crate::gen::sizes_str(&sizes), "0");
+        }
+    }
+    // (vii) a small request, then a head that needs (almost) the whole buffer, the first read ending inside the second head
+    for cap in [64usize, 256, 8192] {
+        let first = b"GET /0 HTTP/1.1\r\n\r\n";
+        let r = first.len();
+        let lens: Vec<usize> = if cap == 8192 { vec![cap / 2 - 1, cap / 2 + 1, cap - r - 1, cap - r, cap - r + 1, cap - 3, cap - 1, cap, cap + 1] }
+            else { (cap / 2 - 2..=cap + 1).collect() };
+        for total in lens {
+            if total < 24 { continue; }
+            let mut s = first.to_vec();
+            s.extend_from_slice(b"GET /1 HTTP/1.1\r\nx:");
+            s.extend(std::iter::repeat(b'v').take(total - 24));
+            s.extend_from_slice(b"\r\n\r\nGET /2 HTTP/1.1\r\n\r\n");
+            for d in [1usize, 5, cap / 4] {
+                for rest in [cap, 7] {
+                    *idx += 1;
+                    if ctx.mine(*idx) {
+                        super::req::case_seq(ctx, &cap.to_string(), &crate::gen::enc(&s), "eof", &crate::gen::sizes_str(&[r + d, rest]), "0");
+                    }
+                }
+            }
+        }
+    }
+}
+
+pub fn run_pipelines(ctx: &mut Ctx) {
+    let mut rng = Rng::new(ctx.seed.wrapping_add(101));
+    let mut idx = 0u64;
+    pipelines(ctx, &mut rng, &mut idx);
+}
+
 fn all_splits2(n: usize) -> Vec<Vec<usize>> {
     (1..n).map(|i| vec![i, n - i]).collect()
 }
@@ -231,27 +284,7 @@ pub fn run(ctx: &mut Ctx) {
             }
         }
     }
-    // (vi) sequences of small requests through one buffer, reads not aligned with request boundaries
-    let nseq = if ctx.thorough() { 3000 } else { 400 };
-    for _ in 0..nseq {
-        let k = rng.range(2, 14);
-        let mut s = Vec::new();
-        for j in 0..k {
-            s.extend_from_slice(format!("GET /{j} HTTP/1.1\r\n").as_bytes());
-            if rng.chance(1, 2) {
-                s.extend_from_slice(b"a: b\r\n");
-            }
-            s.extend_from_slice(b"\r\n");
-        }
-        if rng.chance(1, 4) {
-            s.extend_from_slice(b"GARBAGE");
-        }
-        let sizes: Vec<usize> = (0..rng.range(1, 4)).map(|_| rng.range(1, 50) as usize).collect();
-        idx += 1;
-        if ctx.mine(idx) {
-            super::req::case_seq(ctx, if rng.chance(1, 2) { "64" } else { "256" }, &crate::gen::enc(&s), if rng.chance(1, 2) { "eof" } else { "err" }, &crate::gen::sizes_str(&sizes), "0");
-        }
-    }
+    pipelines(ctx, &mut rng, &mut idx);
     // (v) all 2-way splits and EOF/error at every offset of short heads
     let shorts: [&[u8]; 4] = [b"GET / HTTP/1.1\r\n\r\n", b"PUT /a?b=c HTTP/1.1\r\nh: v\r\n\r\nX", b"G / HTTP/1.1\r\na:\x80\r\n\r\n", b"\r\n\r\n"];
     for s in shorts {
